@@ -38,7 +38,7 @@ def setup():
     from sqlalchemy.orm import (Session, declarative_base, relationship, backref, attributes, object_session, make_transient, exc as orm_exc,
                                 attribute_keyed_dict)
     from sqlalchemy.ext.mutable import MutableDict, MutableList, MutableSet, MutableComposite
-    from sqlalchemy.orm import composite
+    from sqlalchemy.orm import composite, deferred
     from sqlalchemy.pool import QueuePool
 
     class Point(MutableComposite):
@@ -97,6 +97,10 @@ def _universe(name, cfg):
         kind = Column(String)
         data = Column(MutableDict.as_mutable(JSON))
         items = Column(MutableList.as_mutable(_m["PickleType"]))
+        # many-to-one to a natural primary key, declared on the inheritance base, kept in step by the ORM (no ON UPDATE CASCADE);
+        # the constraint is deferred so that the parent key can be rewritten before the referring rows within one transaction
+        k_name = Column(ForeignKey("k.name", deferrable=True, initially="DEFERRED"))
+        k = relationship("K", passive_updates=False)
         bs = relationship("B", back_populates="a", cascade=cfg["bs"])
         p = relationship("P", uselist=False, back_populates="a")
         __mapper_args__ = {"polymorphic_on": kind, "polymorphic_identity": "a"}
@@ -133,6 +137,7 @@ def _universe(name, cfg):
         __tablename__ = "k"
         name = Column(String, primary_key=True)
         val = Column(Integer)
+        memo = _m["deferred"](Column(String))
 
     class P(Base):
         __tablename__ = "p"
@@ -209,6 +214,7 @@ def _universe(name, cfg):
     rels = {
         ("A", "bs"): dict(kind="o2m", target="B", rev="a", fk=("b", "a_id")),
         ("A", "p"): dict(kind="o2o", target="P", rev="a", fk=("p", "a_id")),
+        ("A", "k"): dict(kind="m2o", target="K", rev=None, fk=("a", "k_name")),
         ("B", "a"): dict(kind="m2o", target="A", rev="bs", fk=("b", "a_id")),
         ("B", "tags"): dict(kind="m2m", target="T", rev="bs", assoc=("b_t", "b_id", "t_id")),
         ("T", "bs"): dict(kind="m2m", target="B", rev="tags", assoc=("b_t", "t_id", "b_id")),
@@ -230,10 +236,10 @@ def _universe(name, cfg):
         for (c0, an), r in list(rels.items()):
             if c0 == "A":
                 rels[(cn, an)] = r
-    scal = {"A": ["name"], "A2": ["name", "extra"], "B": ["val"], "T": ["name"], "Node": ["name"], "K": ["val"], "P": ["note"],
+    scal = {"A": ["name"], "A2": ["name", "extra"], "B": ["val"], "T": ["name"], "Node": ["name"], "K": ["val", "memo"], "P": ["note"],
             "BL": ["note"], "D": ["note"], "H": ["note"], "Q": ["note"], "R": ["note"], "G": ["note"], "O": ["val"], "M": []}
-    tables = {"a": ["id", "name", "kind", "data", "items"], "a2": ["id", "extra"], "b": ["id", "a_id", "val"], "t": ["id", "name"],
-              "b_t": ["b_id", "t_id"], "node": ["id", "parent_id", "name"], "nf": ["src", "dst"], "k": ["name", "val"],
+    tables = {"a": ["id", "name", "kind", "data", "items", "k_name"], "a2": ["id", "extra"], "b": ["id", "a_id", "val"], "t": ["id", "name"],
+              "b_t": ["b_id", "t_id"], "node": ["id", "parent_id", "name"], "nf": ["src", "dst"], "k": ["name", "val", "memo"],
               "p": ["id", "a_id", "note"], "bl": ["id", "note"], "d": ["id", "bl_id", "note"], "h": ["id", "d_id", "note"],
               "q": ["id", "note"], "r": ["id", "q_id", "note"], "g": ["id", "note"], "o": ["id", "g_id", "val", "key"],
               "m": ["id", "d", "l", "s", "x", "y"]}
